@@ -30,7 +30,7 @@ def crossQ (pinit ab take k : Nat) : Nat := pinit + k * ab - take
 /-- state after `k ≥ 1` iterations of the outer loop -/
 def COut (ab rb rs lsh : Nat) (H : Int) (a : List Int) (K : Int) (pinit take aStart k : Nat) (st : CrossSt) : Prop :=
   (k < aStart ∧ CCont ab rb rs lsh H a K (crossQ pinit ab take k) (aStart - k) st) ∨
-  CFull rb rs K st ∨
+  (∃ k', 1 ≤ k' ∧ k' ≤ k ∧ CFull rb rs K (crossQ pinit ab take k') st) ∨
   CFlush rb rs H K (crossQ pinit ab take aStart) st
 
 /-- initial state of the outer loop -/
@@ -63,12 +63,13 @@ theorem crossOuter_step (c : CrossCtx bits ab rb rs lsh H a) {K : Int} {pinit ta
     have hal2 : aStart - k - 1 = aStart - (k + 1) := by omega
     rcases hex with ⟨hne, hcc⟩ | hfull | ⟨h0, hfl⟩
     · exact Or.inl ⟨by omega, by rw [← hal2]; exact hcc⟩
-    · exact Or.inr (Or.inl hfull)
+    · exact Or.inr (Or.inl ⟨k + 1, by omega, le_refl _, hfull⟩)
     · refine Or.inr (Or.inr ?_)
       have : k + 1 = aStart := by omega
       rw [this] at hfl; exact hfl
-  · have : st.done = true := hf.dn
-    unfold crossOuterBody; rw [if_pos this]; exact Or.inr (Or.inl hf)
+  · obtain ⟨k', hk'1, hk'2, hf⟩ := hf
+    have : st.done = true := hf.dn
+    unfold crossOuterBody; rw [if_pos this]; exact Or.inr (Or.inl ⟨k', hk'1, by omega, hf⟩)
   · have : st.done = true := hf.dn
     unfold crossOuterBody; rw [if_pos this]; exact Or.inr (Or.inr hf)
 
@@ -118,7 +119,7 @@ theorem crossOuter_first (c : CrossCtx bits ab rb rs lsh H a) {aStart take pad r
     rw [hq] at hex
     rcases hex with ⟨hne, hcc⟩ | hfull | ⟨h0, hfl⟩
     · exact Or.inl ⟨by omega, hcc⟩
-    · exact Or.inr (Or.inl hfull)
+    · exact Or.inr (Or.inl ⟨1, le_refl _, le_refl _, hfull⟩)
     · refine Or.inr (Or.inr ?_)
       have : aStart = 1 := by omega
       rw [show crossQ (rb * (rs - resStart) + pad) ab take aStart = crossQ (rb * (rs - resStart) + pad) ab take 1 by
@@ -139,7 +140,7 @@ theorem crossOuter_first (c : CrossCtx bits ab rb rs lsh H a) {aStart take pad r
       simp only [ne_eq, not_true_eq_false, if_false, Nat.add_zero]
       apply hfuel _ (rb * (rs - resStart) + ab) _ _ (by unfold crossQ; omega)
       refine ⟨by simp [crossSt0], by simp only [crossSt0]; omega, le_refl _, le_refl _, ?_, rfl, rfl, rfl, ?_, hcb,
-        ?_, ?_, hzero_lims, ?_, ?_⟩
+        ?_, ?_, hzero_lims, ?_, ?_, (by intro h'; cases h')⟩
       · simp only [crossSt0, if_true]; omega
       · simp only; linarith
       · simp only [crossSt0, getD_replicate_zero]; simp
@@ -153,7 +154,7 @@ theorem crossOuter_first (c : CrossCtx bits ab rb rs lsh H a) {aStart take pad r
         have : rs - 1 - (resStart - 1) = rs - resStart := by omega
         rw [this]; omega
       refine ⟨by simp [crossSt0], by simp only [crossSt0]; omega, by simp only [crossSt0]; omega, le_refl _, ?_,
-        rfl, rfl, rfl, ?_, hcb, ?_, ?_, hzero_lims, ?_, ?_⟩
+        rfl, rfl, rfl, ?_, hcb, ?_, ?_, hzero_lims, ?_, ?_, (by intro h'; cases h')⟩
       · simp only [crossSt0, if_true]; omega
       · simp only; linarith
       · simp only [crossSt0, getD_replicate_zero]
@@ -188,7 +189,7 @@ theorem crossOuter_first (c : CrossCtx bits ab rb rs lsh H a) {aStart take pad r
       rw [this]; ring
     · apply hfuel _ (rb * (rs - resStart) + (ab - take)) _ _ (by unfold crossQ; omega)
       refine ⟨by simp [crossSt0], by simp only [crossSt0]; omega, le_refl _, by simp only; omega, ?_, rfl, rfl, rfl, ?_,
-        hcb, ?_, ?_, hzero_lims, ?_, ?_⟩
+        hcb, ?_, ?_, hzero_lims, ?_, ?_, (by intro h'; cases h')⟩
       · simp only [crossSt0, if_true]; omega
       · -- 2|n'| ≤ 2^(ab-take) + 1
         simp only
